@@ -27,11 +27,14 @@ import zlib
 VERIF = os.path.dirname(os.path.abspath(__file__))
 REPO = os.environ.get("VERIF_REPO", "/repo")
 HARNESS = os.path.join(VERIF, "harness")
-BUILD = os.path.join(VERIF, "build")
-WORK = os.path.join(VERIF, "work")
-EVID = os.path.join(VERIF, "evidence")
-REPLAYS = os.path.join(VERIF, "replays")
-KNOWN = os.path.join(VERIF, "KNOWN_FINDINGS.txt")
+# a tree other than /repo (sensitivity runs against a scratch worktree: VERIF_REPO=<dir>) gets its own
+# build/work/evidence/replay directories so that it can never disturb or overwrite the real ones
+_SFX = "" if os.path.realpath(REPO) == "/repo" else "-" + hashlib.sha1(os.path.realpath(REPO).encode()).hexdigest()[:8]
+BUILD = os.path.join(VERIF, "build" + _SFX)
+WORK = os.path.join(VERIF, "work" + _SFX)
+EVID = os.path.join(VERIF, "evidence") if not _SFX else os.path.join(WORK, "evidence")
+REPLAYS = os.path.join(VERIF, "replays" + _SFX)
+KNOWN = os.environ.get("VERIF_KNOWN") or os.path.join(VERIF, "KNOWN_FINDINGS.txt")
 MODCACHE = os.environ.get("GOMODCACHE", "/root/go/pkg/mod")
 NCPU = os.cpu_count() or 4
 
